@@ -193,8 +193,45 @@ def docenc_tool(c, drv):
                 c.broken.append("correspondence docenc model vs bin/docenc: case %r (argv %s): model=%s impl=%s" % (ml[:120], " ".join(argv[1:]), mo[:120], io[:120]))
 
 
+def replay(c):
+    """bin/check C09 --replay file: re-run the recorded input on the current tree."""
+    import json
+    body = json.load(open(c.replay))
+    r = body.get("replay") or {}
+    ok, blog = build_repo(["hx_base64", "docenc"])
+    print("replaying:", body.get("what", "")[:300])
+    if r.get("op") in ("encode", "decode"):
+        line = ("E " if r["op"] == "encode" else "D ") + r["input_hex"]
+        rc, out, err = run_lines(hx_bin("hx_base64"), [line])
+        print("  hx_base64 %s -> %s (recorded: %s)" % (line, out, r.get("impl")))
+        bad = out and out[0] == r.get("impl")
+    elif r.get("op") == "docenc-roundtrip":
+        flag = ["-0"] if r["delim"] == 0 else []
+        inp = bytes.fromhex(r["b64_input_hex"])
+        st1, o1, _ = run_tool([repo_bin("docenc"), "-d", "-q"] + flag, inp)
+        st2, o2, _ = run_tool([repo_bin("docenc")] + flag, o1)
+        print("  docenc -d | docenc: %r -> %r" % (inp, o2))
+        bad = o2 != inp
+    elif r.get("op") == "docenc-index":
+        flag = ["-0"] if r["delim"] == 0 else []
+        inp = bytes.fromhex(r["b64_input_hex"])
+        st, o, _ = run_tool([repo_bin("docenc"), "-d", "-q"] + flag + r["args"], inp)
+        print("  docenc -d %s: %r expected %r" % (" ".join(r["args"]), o, bytes.fromhex(r["expected_hex"])))
+        bad = o != bytes.fromhex(r["expected_hex"])
+    else:
+        print("  (no concrete input recorded; broken obligations: %s)" % body.get("broken_obligations"))
+        bad = True
+    if bad:
+        print("VIOLATION property=C09 replay=%s" % c.replay)
+        return 1
+    print("replay no longer fails")
+    return 0
+
+
 def main(argv):
     c = Check("C09", argv)
+    if c.replay:
+        return replay(c)
     ok, blog = build_repo(["hx_base64", "docenc"])
     if not ok:
         c.broken.append("build of /repo working tree failed: " + blog[-800:])
@@ -249,6 +286,8 @@ def main(argv):
                         c.violation("roundtrip: decode(%r) gave %s expected %s" % (b, o, hexs(raw)),
                                     {"op": "decode", "input_hex": hexs(b), "impl": o, "expected_hex": hexs(raw)})
     docenc_tool(c, drv)
+    from coqchk import thorough_coqchk
+    thorough_coqchk(c)
     return c.finish(level="proof",
                     rule="encode: all byte strings of length 0-2 exhaustively + random/boundary strings to 4 KiB; decode: canonical encodings with 0..2 pads removed, every byte value inserted/substituted at every offset of encodings of 0-6 bytes, two-byte corruptions at a block boundary, pad-only strings, random bytes; docenc: random and targeted document sequences (CR at line ends, CR-only lines, empty documents, NUL/newline content) for both separators through `docenc -d | docenc`, index lists with duplicates, overlapping ranges, out-of-range and 0, arbitrary bytes into both modes (model correspondence only). distinct = distinct non-empty inputs",
                     assumptions=["util::Exception from base64_decode = error; std::length_error from reserve() = error",
